@@ -299,6 +299,9 @@ def gen_mutation(rng, t):
 
 
 def gen(rng, tier):
+    # a double printed from caller-managed text, deep-copied, the source's text rewritten and released afterwards
+    yield {"lines": ["copyud 3ff8000000000000 " + b"1.50".hex(), "copyud 4059000000000000 " + b"100.000".hex(),
+                     "copyud bfd0000000000000 " + b"-0.25".hex()]}
     quick = tier == "quick"
     # --- the fixed universe: every ordered pair (reflexive pairs included: separately built twins)
     u = UNIVERSE
